@@ -303,7 +303,7 @@ Print Assumptions C03_source_table_panic_sites.
    RemoveFromMemDir panic (commit 2d6ed35) *)
 Theorem C03_source_table_plain_unlocks :
   cc_tab_plain_unlock LkF cc_locktab_src =
-    map cc_bytes ["mem.ChangeFileName"; "mem.File.Close"; "mem.File.Open"; "mem.File.Readdir"; "mem.File.Seek";
+    map cc_bytes ["mem.ChangeFileName"; "mem.File.Close"; "mem.File.Open"; "mem.File.Seek"; "mem.File.readdirFiles";
                   "mem.FileInfo.Name"; "mem.SetGID"; "mem.SetModTime"; "mem.SetMode"; "mem.SetUID"]%string /\
   cc_tab_plain_unlock LkW cc_locktab_src = map cc_bytes ["MemMapFs.Create"; "MemMapFs.Mkdir"]%string /\
   cc_tab_plain_unlock LkR cc_locktab_src = map cc_bytes ["MemMapFs.Chown"; "MemMapFs.Mkdir"; "MemMapFs.open"]%string.
